@@ -110,6 +110,11 @@ def run(tier, seed, replay=None):
         for files, pl, single in cr.corner_cases():
             for via in (False, True):
                 run_case(run, drv, files, pl, single, via, "corner")
+        from harness.common import Blob as _B
+        from harness import gen as _g
+        # a 2 MiB piece: gaps of more than 1 MiB to the next boundary
+        run_case(run, drv, _g.FileList([("a", _B.rand(1, 100)), ("b", _B.rand(2, 2 ** 21 + 5)), ("c", _B.rand(3, 7))]),
+                 2 ** 21, False, False, "big-gap")
         for _ in range(120 if tier == "quick" else 1200):
             files, pl, single = cr.make_case(run.rng, tier, single_p=0.2)
             run_case(run, drv, files, pl, single, run.rng.random() < 0.3, "random")
